@@ -1002,6 +1002,62 @@ def judgeC19 (ops : List OpRec) : List String :=
     { s with cluster := evolve s.cluster op }) ({} : J19)
   s.out
 
+/-! ### C05 -/
+
+def kvStr (k v : Option Bytes) : String := s!"{Driver.optTok k}:{Driver.optTok v}"
+
+def judgeC05 (ops : List OpRec) : List String :=
+  let s := ops.foldl (fun (s : JSt) op =>
+    let s := { s with cluster := applySetup s.cluster op.setup }
+    let s := trackSettings s op
+    let (c', bodies) := truthBodies s.cluster op
+    let s := match op.toks with
+    | _ :: "produce" :: acks :: secs :: nanos :: args =>
+      match parseProduceArgs args with
+      | none => s
+      | some pas =>
+        let reqs : List (Bytes × Request) := framesOf op
+        let unknown := pas.any fun (a : Model.ProduceArg) => (leaderHost s.cluster a.topic a.partition).isNone
+        if unknown then
+          let s := if op.result == "err Kafka(3)" then s else viol s "C05-unknown-not-rejected" op s!"result `{op.result}`"
+          if reqs.isEmpty then s else viol s "C05-sent-before-failing" op "bytes were sent although a record names an unknown topic or partition"
+        else
+          -- expected: per (leader host, topic, partition) the records in input order
+          let keys : List (Bytes × Int) := pas.foldl (fun (acc : List (Bytes × Int)) (a : Model.ProduceArg) => if acc.contains (a.topic, a.partition) then acc else acc ++ [(a.topic, a.partition)]) []
+          let want : List String := keys.map fun (t, p) =>
+            let recs := (pas.filter fun (a : Model.ProduceArg) => a.topic == t && a.partition == p).map fun (a : Model.ProduceArg) => kvStr a.key a.value
+            s!"{toHexTok ((leaderHost s.cluster t p).getD [])}|{toHexTok t}|{p}|{recs}"
+          let got : List String := reqs.flatMap fun (x : Bytes × Request) => match x.2.body with
+            | ReqBody.produce _ _ ts => ts.flatMap fun (tp : Bytes × List (Int × Bytes)) => tp.2.map fun (ps : Int × Bytes) =>
+                s!"{toHexTok x.1}|{toHexTok tp.1}|{ps.1}|{(openSet ps.2).map fun (m : Msg) => kvStr m.key m.value}"
+            | _ => []
+          let s := if sortBy (· < ·) want == sortBy (· < ·) got then s
+            else viol s "C05-records" op s!"requests carry {sortBy (· < ·) got}, expected (each record once, at its partition's leader, order kept) {sortBy (· < ·) want}"
+          -- one request per involved broker, with the configured acks and time-out
+          let hosts : List Bytes := reqs.map fun (x : Bytes × Request) => x.1
+          let s := if hosts.length == (dedupB hosts).length then s else viol s "C05-several-requests-per-broker" op s!"{hosts.map toHexTok}"
+          let to := match secs.toNat?, nanos.toNat? with
+            | some a, some b => (Model.toMillisI32 a b).toOption
+            | _, _ => none
+          let s := reqs.foldl (fun (s : JSt) (x : Bytes × Request) => match x.2.body with
+            | ReqBody.produce a t _ => if some a == acks.toInt? && some t == to then s else viol s "C05-acks-timeout" op s!"acks {a} timeout {t}"
+            | _ => viol s "C05-wrong-api" op "not a produce request") s
+          -- confirmations: exactly the per-partition results of all broker responses; none awaited with acks 0
+          let ioFault := op.evs.any (fun e => match e with | .io _ _ => true | .connect _ ok => !ok | _ => false)
+          if ioFault then s else
+          if acks == "0" then
+            let s := if op.result == "ok" then s else viol s "C05-noack-result" op op.result
+            if op.evs.any (fun e => match e with | .req _ _ (some _) => true | _ => false) then viol s "C05-noack-reply-read" op "a reply was produced/read under acks 0" else s
+          else
+            let confirms : List Model.ProduceConfirm := bodies.flatMap fun (x : Bytes × Request × RespBody) => match x.2.2 with
+              | RespBody.produce ts => ts.map fun (tp : Bytes × List (Int × Int × Int)) =>
+                  (⟨tp.1, tp.2.map fun (q : Int × Int × Int) => ⟨q.1, if q.2.1 = 0 then .ok q.2.2 else .error (kindOf q.2.1)⟩⟩ : Model.ProduceConfirm)
+              | _ => []
+            if op.result == fmtConfirms confirms then s else viol s "C05-confirmations" op s!"returned `{op.result}`, brokers answered `{fmtConfirms confirms}`"
+    | _ => s
+    { s with cluster := c' }) ({} : JSt)
+  s.out
+
 def judge (prop : String) (lines : List String) : List String :=
   let ops := parseOps lines
   match prop with
@@ -1015,6 +1071,7 @@ def judge (prop : String) (lines : List String) : List String :=
   | "C16" => judgeC16 ops
   | "C07" => judgeC07 ops
   | "C19" => judgeC19 ops
+  | "C05" => judgeC05 ops
   | _ => []
 
 end Kafka.Judge
